@@ -61,11 +61,11 @@ std::string build_reply(const Frame &f, const J &st, int pid, std::string &desc)
   std::string kind = st["kind"].str("ok");
   char        b[512];
   if (kind == "garbage") {
-    desc = "\"kind\":\"garbage\",\"parse\":0";
+    desc = "\"kind\":\"garbage\",\"parse\":0,\"len\":5";
     return std::string("\x12\x34\xff\xff\xff", 5);
   }
   if (kind == "empty") {
-    desc = "\"kind\":\"empty\",\"parse\":0";
+    desc = "\"kind\":\"empty\",\"parse\":0,\"len\":0";
     return std::string();
   }
   int         qid   = f.qid;
@@ -180,6 +180,7 @@ std::string build_reply(const Frame &f, const J &st, int pid, std::string &desc)
   desc = b;
   desc += "\"ck\":" + jstr(cookie.size() >= 8 ? cookie.substr(0, 8) : cookie) + ",";
   desc += "\"sk\":" + jstr(cookie.size() > 8 ? cookie.substr(8) : "") + ",";
+  desc += "\"lname\":" + jstr(lower(qname)) + ",";
   desc += "\"name\":" + jstr(qname);
   return out;
 }
